@@ -134,6 +134,13 @@ def apply_mask(
   elif types.is_array_like(masks) and types.is_array_like(items):
     if hasattr(masks, '__array__') and getattr(masks, 'dtype') == bool:
       if replace_false_with != DEFAULT_FILTER:
+        # The mask selects along the leading axes of the items, the same way
+        # the filtering below does; np.where alone would broadcast it along
+        # the trailing axes.
+        masks = np.asarray(masks)
+        extra_dims = np.ndim(items) - masks.ndim
+        if extra_dims > 0:
+          masks = masks.reshape(masks.shape + (1,) * extra_dims)
         return np.where(masks, items, replace_false_with)
       else:
         return np.asarray(items)[masks]
